@@ -2,6 +2,9 @@ package sim
 
 import (
 	"encoding/hex"
+
+	pb "github.com/wealdtech/eth2-signer-api/pb/v1"
+
 	"fmt"
 	"os"
 	"strconv"
@@ -56,6 +59,12 @@ func runChild(t *testing.T) {
 			o = g.op("C01")
 		}
 		r := o.Exec(inst)
+		for j := range r.States {
+			if r.States[j] == pb.ResponseState_FAILED {
+				say("IOFAIL")
+				break
+			}
+		}
 		for j := range o.Entries {
 			if !r.OK(j) || o.Entries[j].Acct < 0 {
 				continue
